@@ -1971,3 +1971,838 @@ Proof.
     rewrite value_of_norm. exact Hcv.
 Qed.
 Print Assumptions C05_accept.
+
+(* ====================================================================== *)
+(* Part 9: everything else is refused                                       *)
+(* ====================================================================== *)
+
+Definition is_value (r : ref_result) : bool := match r with RValue _ _ => true | _ => false end.
+
+Definition incomplete (p : cparser) : Prop := finalize p <> nilE.
+
+Definition bad_end (r : sres) : Prop :=
+  match r with
+  | SR p s rest d e => e <> nilE \/ (rest = [] /\ incomplete p)
+  | Crash _ => False
+  end.
+
+Definition rejects (X : sres) (B : nat) : Prop :=
+  exists n, (n <= B)%nat /\ forall f, exists Y, fu_cont (n + f) X = Ok Y /\ bad_end Y.
+
+Lemma rejects_reach X Y k B B' : reaches X Y k -> rejects Y B -> (k + B <= B')%nat -> rejects X B'.
+Proof.
+  intros Hr (n & Hn & H) HB. exists (k + n)%nat. split; [lia|].
+  intro f. rewrite <- Nat.add_assoc. rewrite Hr. apply H.
+Qed.
+
+Lemma rejects_weaken X B B' : rejects X B -> (B <= B')%nat -> rejects X B'.
+Proof. intros (n & Hn & H) HB. exists n. split; [lia|exact H]. Qed.
+
+Lemma rejects_err p s rest d e B : e <> nilE -> rejects (SR p s rest d e) B.
+Proof.
+  intro He. exists 0%nat. split; [lia|]. intro f. exists (SR p s rest d e). split.
+  - cbn [Nat.add fu_cont]. unfold isnil. rewrite (neq_eqb _ _ He). cbn [negb].
+    rewrite orb_true_r. reflexivity.
+  - left. exact He.
+Qed.
+
+Lemma rejects_stop p s B : Z.land (c_major (p_cur p)) 5 <> 4 -> incomplete p ->
+  rejects (SR p s [] false nilE) B.
+Proof.
+  intros Hl Hi. exists 0%nat. split; [lia|]. intro f. exists (SR p s [] false nilE). split.
+  - cbn [Nat.add fu_cont orb]. change (isnil nilE) with true. cbn [negb]. unfold contb.
+    change (zlen (@nil Z) =? 0) with true. cbn [negb orb]. change (stStartX + stIndef) with 5.
+    change stStartX with 4. rewrite (neq_eqb _ _ Hl). reflexivity.
+  - right. auto.
+Qed.
+
+Lemma incomplete_stack p : p_stack p <> [] -> incomplete p.
+Proof.
+  intro H. unfold incomplete, finalize. destruct (p_stack p) as [|c l]; [congruence|].
+  rewrite zlen_cons. pose proof (zlen_nonneg l).
+  destruct (1 + zlen l >? 0) eqn:E; [|lia]. cbn [orb]. discriminate.
+Qed.
+
+Lemma incomplete_push p A : c_major (p_cur p) <> stFail -> incomplete (st_push p A).
+Proof.
+  intro H. apply incomplete_stack. unfold st_push. cbn [p_stack]. rewrite (neq_eqb _ _ H). discriminate.
+Qed.
+
+Lemma incomplete_setbuf p b : incomplete p -> p_stack p <> [] -> incomplete (set_buf p b).
+Proof. intros _ H. apply incomplete_stack. exact H. Qed.
+
+Lemma stack_push p A : c_major (p_cur p) <> stFail -> p_stack (st_push p A) <> [].
+Proof. intro H. unfold st_push. cbn [p_stack]. rewrite (neq_eqb _ _ H). discriminate. Qed.
+
+(* a context in which a value is expected and where the loop stops on empty input *)
+Definition rctx (p : cparser) : Prop := vctx p /\ Z.land (c_major (p_cur p)) 5 <> 4.
+
+Definition reject_goal (b : bytes) (p : cparser) (s : sink) : Prop :=
+  rejects (step_value p s b) (3 * length b).
+
+(* an argument that is cut short: the state just pushed keeps waiting *)
+
+Lemma take_short_24 r : take 1 r = None -> r = [].
+Proof.
+  intro H. apply take_none in H; [|lia]. destruct r; [reflexivity|].
+  rewrite zlen_cons in H. pose proof (zlen_nonneg r). lia.
+Qed.
+
+Lemma step_num_short neg q s r m : c_minor (p_cur q) = m -> 24 <= m <= 27 -> p_buf q = [] ->
+  r <> [] -> take (2 ^ (m - 24)) r = None ->
+  step_num neg q s r = SR (set_buf q ([] ++ r)) s [] false nilE.
+Proof.
+  intros Hm Hr Hb Hne Ht. unfold step_num. rewrite Hm. clear Hm.
+  destruct (m =? 24) eqn:E24.
+  - assert (m = 24) by lia. subst m. change (2 ^ (24 - 24)) with 1 in Ht.
+    apply take_short_24 in Ht. congruence.
+  - destruct ((m =? 25) || (m =? 26) || (m =? 27)) eqn:E; [|lia].
+    unfold get_uint. pose proof (arg_pow m Hr). apply take_none in Ht; [|lia].
+    rewrite collect_short by (try assumption; lia). reflexivity.
+Qed.
+
+Lemma step_len_short q s r m : c_minor (p_cur q) = m -> 24 <= m <= 27 -> p_buf q = [] ->
+  r <> [] -> take (2 ^ (m - 24)) r = None ->
+  step_len q s r = SR (set_buf q ([] ++ r)) s [] false nilE.
+Proof.
+  intros Hm Hr Hb Hne Ht. unfold step_len. rewrite Hm. clear Hm.
+  destruct (m =? 24) eqn:E24.
+  - assert (m = 24) by lia. subst m. change (2 ^ (24 - 24)) with 1 in Ht.
+    apply take_short_24 in Ht. congruence.
+  - destruct ((m =? 25) || (m =? 26) || (m =? 27)) eqn:E; [|lia].
+    unfold get_uint. pose proof (arg_pow m Hr). apply take_none in Ht; [|lia].
+    rewrite collect_short by (try assumption; lia). reflexivity.
+Qed.
+
+Lemma step_float_short w q s r : 0 <= w -> p_buf q = [] -> take w r = None ->
+  step_float w q s r = SR (set_buf q ([] ++ r)) s [] false nilE.
+Proof.
+  intros Hw Hb Ht. unfold step_float, get_uint. apply take_none in Ht; [|lia].
+  rewrite collect_short by assumption. reflexivity.
+Qed.
+
+(* the generic "pushed a state that needs more bytes than there are" *)
+Lemma rejects_pushed_short p A s r (stepf : cparser -> sink -> bytes -> sres) B :
+  c_major (p_cur p) <> stFail -> Z.land (c_major A) 5 <> 4 ->
+  (forall b, exec_step (st_push p A) s b = stepf (st_push p A) s b) ->
+  (r <> [] -> stepf (st_push p A) s r = SR (set_buf (st_push p A) ([] ++ r)) s [] false nilE) ->
+  (1 <= B)%nat ->
+  rejects (SR (st_push p A) s r false nilE) B.
+Proof.
+  intros Hcur HA Hex Hst HB.
+  destruct r as [|x r'].
+  - apply rejects_stop; [exact HA|]. apply incomplete_push. exact Hcur.
+  - eapply rejects_reach; [apply reaches_step; apply contb_nonempty| |].
+    + rewrite Hex, Hst by discriminate.
+      apply (rejects_stop _ _ 0); [exact HA|]. apply incomplete_stack. cbn [set_buf p_stack].
+      apply stack_push. exact Hcur.
+    + lia.
+Qed.
+
+(* ---------- refused scalars ---------- *)
+Lemma eInvalid_ne : eInvalidCode <> nilE. Proof. discriminate. Qed.
+
+Lemma reject_uint f ib r p s : is_byte ib = true -> all_bytes r = true -> ib / 32 = 0 ->
+  is_value (ref_body f ib r) = false -> rctx p -> s_fail s = None ->
+  reject_goal (ib :: r) p s.
+Proof.
+  intros Hib Hr HM Href [[Hbuf Hcur] Hland] Hs.
+  destruct (byte_split ib Hib) as (Hm & Hsplit & _).
+  rewrite ref_m0 in Href by exact HM.
+  unfold reject_goal. rewrite sv_m0 by exact HM.
+  destruct (read_arg_cases (ib mod 32) r Hm) as [[H1 H2]|[[H1 H2]|[[H1 H2]|[H1 H2]]]];
+    rewrite H2 in Href; try discriminate.
+  - destruct (take (2 ^ (ib mod 32 - 24)) r) as [[a r1]|] eqn:Ht; [discriminate|].
+    destruct (ib <? 24) eqn:E; [lia|]. destruct (ib mod 32 >? 27) eqn:E2; [lia|].
+    apply (rejects_pushed_short p (mkst 0 (ib mod 32)) s r (step_num false)); try assumption.
+    + discriminate.
+    + intro b. apply exec_at_uint. reflexivity.
+    + intro Hne. apply (step_num_short false _ s r (ib mod 32)); try assumption; reflexivity.
+    + cbn [length]. lia.
+  - destruct (ib <? 24) eqn:E; [lia|]. destruct (ib mod 32 >? 27) eqn:E2; [|lia].
+    apply rejects_err. discriminate.
+  - destruct (ib <? 24) eqn:E; [lia|]. destruct (ib mod 32 >? 27) eqn:E2; [|lia].
+    apply rejects_err. discriminate.
+Qed.
+
+Lemma num_event_neg_big v : 9223372036854775807 < v -> num_event true 27 v = None.
+Proof.
+  intro H. unfold num_event. cbn [negb Z.eqb Pos.eqb].
+  destruct (v <=? 9223372036854775807) eqn:E; [lia|reflexivity].
+Qed.
+
+Lemma reject_neg f ib r p s : is_byte ib = true -> all_bytes r = true -> ib / 32 = 1 ->
+  is_value (ref_body f ib r) = false -> rctx p -> s_fail s = None ->
+  reject_goal (ib :: r) p s.
+Proof.
+  intros Hib Hr HM Href [[Hbuf Hcur] Hland] Hs.
+  destruct (byte_split ib Hib) as (Hm & Hsplit & _).
+  rewrite ref_m1 in Href by exact HM.
+  unfold reject_goal. rewrite sv_m1 by exact HM.
+  destruct (read_arg_cases (ib mod 32) r Hm) as [[H1 H2]|[[H1 H2]|[[H1 H2]|[H1 H2]]]];
+    rewrite H2 in Href.
+  - change (2 ^ 63) with 9223372036854775808 in Href.
+    destruct (ib mod 32 <? 9223372036854775808) eqn:E; [discriminate|lia].
+  - destruct (ib mod 32 <? 24) eqn:E; [lia|]. destruct (ib mod 32 >? 27) eqn:E2; [lia|].
+    destruct (take (2 ^ (ib mod 32 - 24)) r) as [[a r1]|] eqn:Ht.
+    + change (2 ^ 63) with 9223372036854775808 in Href.
+      destruct (be_dec a <? 9223372036854775808) eqn:En; [discriminate|].
+      pose proof (take_bytes _ _ _ _ Ht Hr) as [Hba Hbr1].
+      pose proof (take_some _ _ _ _ Ht) as (_ & Hl & _ & _ & _ & Hza).
+      pose proof (arg_pow _ H1) as Hpow.
+      pose proof (arg_bound _ a Hza Hba) as (B24 & B25 & B26 & B27).
+      assert (Em : ib mod 32 = 27) by lia.
+      eapply rejects_reach; [apply reaches_step; apply contb_pos; lia| |].
+      * rewrite exec_at_neg by reflexivity.
+        rewrite (step_num_arg true _ s r (ib mod 32) a r1) by (try reflexivity; assumption).
+        rewrite Em. rewrite num_event_neg_big by lia.
+        unfold after_pop. change (isnil eIntRange) with false. cbv iota.
+        apply (rejects_err _ _ _ _ _ 0). discriminate.
+      * cbn [length]. lia.
+    + apply (rejects_pushed_short p (mkst 32 (ib mod 32)) s r (step_num true)); try assumption.
+      * discriminate.
+      * intro b. apply exec_at_neg. reflexivity.
+      * intro Hne. apply (step_num_short true _ s r (ib mod 32)); try assumption; reflexivity.
+      * cbn [length]. lia.
+  - destruct (ib mod 32 <? 24) eqn:E; [lia|]. destruct (ib mod 32 >? 27) eqn:E2; [|lia].
+    apply rejects_err. discriminate.
+  - destruct (ib mod 32 <? 24) eqn:E; [lia|]. destruct (ib mod 32 >? 27) eqn:E2; [|lia].
+    apply rejects_err. discriminate.
+Qed.
+
+Lemma reject_tag ib r p s : ib / 32 = 6 -> reject_goal (ib :: r) p s.
+Proof. intro HM. unfold reject_goal. rewrite sv_m6 by exact HM. apply rejects_err. discriminate. Qed.
+
+Lemma reject_simple ib r p s : is_byte ib = true -> all_bytes r = true -> ib / 32 = 7 ->
+  is_value (ref_simple (ib mod 32) r) = false -> rctx p -> s_fail s = None ->
+  reject_goal (ib :: r) p s.
+Proof.
+  intros Hib Hr HM Href [[Hbuf Hcur] Hland] Hs.
+  destruct (byte_split ib Hib) as (Hm & Hsplit & _).
+  unfold reject_goal. rewrite sv_m7 by exact HM. unfold ref_simple in Href.
+  destruct (ib mod 32 =? 20) eqn:E20; [discriminate|].
+  destruct (ib mod 32 =? 21) eqn:E21; [discriminate|].
+  destruct (ib mod 32 =? 22) eqn:E22; [discriminate|].
+  destruct (ib mod 32 =? 23) eqn:E23; [discriminate|].
+  destruct (ib =? 244) eqn:E; [lia|]. destruct (ib =? 245) eqn:E'; [lia|].
+  destruct ((ib =? 246) || (ib =? 247)) eqn:E''; [lia|].
+  destruct (ib =? 249) eqn:E249; [apply rejects_err; discriminate|].
+  destruct (ib mod 32 =? 26) eqn:E26.
+  { destruct ((ib =? 250) || (ib =? 251)) eqn:Ef; [|lia]. assert (ib = 250) as -> by lia.
+    destruct (take 4 r) as [[a r1]|] eqn:Ht; [discriminate|].
+    apply (rejects_pushed_short p (mkst 250 stStart) s r (step_float 4)); try assumption.
+    - discriminate.
+    - intro b. apply exec_at_f32. reflexivity.
+    - intros _. apply step_float_short; [lia|assumption|assumption].
+    - cbn [length]. lia. }
+  destruct (ib mod 32 =? 27) eqn:E27.
+  { destruct ((ib =? 250) || (ib =? 251)) eqn:Ef; [|lia]. assert (ib = 251) as -> by lia.
+    destruct (take 8 r) as [[a r1]|] eqn:Ht; [discriminate|].
+    apply (rejects_pushed_short p (mkst 251 stStart) s r (step_float 8)); try assumption.
+    - discriminate.
+    - intro b. apply exec_at_f64. reflexivity.
+    - intros _. apply step_float_short; [lia|assumption|assumption].
+    - cbn [length]. lia. }
+  destruct ((ib =? 250) || (ib =? 251)) eqn:Ef; [lia|].
+  apply rejects_err. discriminate.
+Qed.
+
+(* ---------- refused or cut-short length headers ---------- *)
+Lemma hdr_rej p s X m r B : p_buf p = [] -> c_major (p_cur p) <> stFail -> X + 4 <> stFail ->
+  0 <= m < 32 -> all_bytes r = true ->
+  match read_arg m r with ArgVal n _ => 9223372036854775807 < n | _ => True end ->
+  (1 <= B)%nat -> rejects (init_byte_seq p s X m r) B.
+Proof.
+  intros Hbuf Hcur HX Hm Hr Ha HB. unfold init_byte_seq.
+  destruct (read_arg_cases m r Hm) as [[H1 H2]|[[H1 H2]|[[H1 H2]|[H1 H2]]]]; rewrite H2 in Ha.
+  - lia.
+  - destruct (m <? 24) eqn:E; [lia|]. destruct (m >? 27) eqn:E2; [lia|].
+    destruct (take (2 ^ (m - 24)) r) as [[a r1]|] eqn:Ht.
+    + pose proof (take_some _ _ _ _ Ht) as (_ & Hl & _ & _ & _ & Hza).
+      pose proof (arg_pow _ H1) as Hpow.
+      eapply rejects_reach; [apply reaches_step; apply contb_pos; lia| |].
+      * rewrite exec_at_len by reflexivity.
+        rewrite (step_len_arg _ s r m a r1) by (try reflexivity; assumption).
+        destruct (be_dec a >? 9223372036854775807) eqn:E3; [|lia].
+        apply (rejects_err _ _ _ _ _ 0). discriminate.
+      * lia.
+    + apply (rejects_pushed_short (st_push p (mkst (X + stStartX) stStart)) (mkst stLen m) s r step_len).
+      * exact HX.
+      * discriminate.
+      * intro b. apply exec_at_len. reflexivity.
+      * intro Hne. apply (step_len_short _ s r m); try assumption; reflexivity.
+      * exact HB.
+  - destruct (m <? 24) eqn:E; [lia|]. destruct (m >? 27) eqn:E2; [|lia].
+    apply rejects_err. discriminate.
+  - destruct (m <? 24) eqn:E; [lia|]. destruct (m >? 27) eqn:E2; [|lia].
+    apply rejects_err. discriminate.
+Qed.
+
+(* classification of the header of a string or container *)
+Lemma hdr_cases p s X m r : p_buf p = [] -> c_major (p_cur p) <> stFail -> X + 4 <> stFail ->
+  0 <= m < 32 -> all_bytes r = true ->
+  (forall B, (1 <= B)%nat -> rejects (init_byte_seq p s X m r) B) \/
+  (exists n r1 k, read_arg m r = ArgVal n r1 /\ (k <= 1)%nat /\ (length r1 + k <= length r)%nat /\
+     all_bytes r1 = true /\ 0 <= n <= 9223372036854775807 /\
+     reaches (init_byte_seq p s X m r) (SR (hdr p X n) s r1 false nilE) k).
+Proof.
+  intros Hbuf Hcur HX Hm Hr.
+  destruct (read_arg m r) as [n r1|r1| |] eqn:Ha.
+  - destruct (n >? 9223372036854775807) eqn:En.
+    + left. intros B HB. apply hdr_rej; try assumption. rewrite Ha. lia.
+    + right. destruct (byte_seq_hdr p s X m r n r1 Hbuf Hcur HX Hm Hr Ha ltac:(lia))
+        as (k & Hk & Hlk & Hbr1 & Hn0 & Hreach).
+      exists n, r1, k. repeat split; try assumption; lia.
+  - left. intros B HB. apply hdr_rej; try assumption. rewrite Ha. exact I.
+  - left. intros B HB. apply hdr_rej; try assumption. rewrite Ha. exact I.
+  - left. intros B HB. apply hdr_rej; try assumption. rewrite Ha. exact I.
+Qed.
+
+Lemma stack_hdr p X n : c_major (p_cur p) <> stFail -> p_stack (hdr p X n) <> [].
+Proof. intro H. unfold hdr. cbn [len_push p_stack]. apply stack_push. exact H. Qed.
+
+Lemma skipn_zlen (b : bytes) : zskipn (zlen b) b = [].
+Proof. unfold zskipn, zlen. rewrite Nat2Z.id. apply skipn_all. Qed.
+
+Lemma step_bytes_short p s b n : c_minor (p_cur p) = 1 -> p_lcur p = n -> zlen b < n ->
+  s_fail s = None ->
+  exists p' s', step_bytes p s b = SR p' s' [] false nilE /\ p_stack p' = p_stack p /\
+                c_major (p_cur p') = c_major (p_cur p).
+Proof.
+  intros Hmin Hl Hn Hs. unfold step_bytes. rewrite Hmin. change (1 =? stStart) with true. cbv iota.
+  rewrite vis_ok by exact Hs. change (isnil nilE) with true. cbv iota. cbn [negb].
+  change (p_lcur (set_cur p (mkst (c_major (p_cur p)) stCont))) with (p_lcur p). rewrite Hl.
+  destruct (zlen b >=? n) eqn:E; [lia|].
+  pose proof (zlen_nonneg b). destruct (zlen b <? 0) eqn:E2; [lia|].
+  rewrite emit_bytes_ok by (rewrite sadd_fail; exact Hs). cbn [negb]. cbv iota.
+  change (isnil nilE) with true. cbn [negb]. cbv iota.
+  rewrite skipn_zlen. eexists. eexists. split; [reflexivity|]. split; reflexivity.
+Qed.
+
+Lemma reject_text f ib r p s : is_byte ib = true -> all_bytes r = true -> ib / 32 = 3 ->
+  is_value (ref_body f ib r) = false -> rctx p -> s_fail s = None ->
+  reject_goal (ib :: r) p s.
+Proof.
+  intros Hib Hr HM Href [[Hbuf Hcur] Hland] Hs.
+  destruct (byte_split ib Hib) as (Hm & Hsplit & _).
+  rewrite ref_m3 in Href by exact HM.
+  unfold reject_goal. rewrite sv_m3 by exact HM.
+  destruct (ib mod 32 =? 31) eqn:E31; [apply rejects_err; discriminate|].
+  destruct (hdr_cases p s 96 (ib mod 32) r Hbuf Hcur ltac:(discriminate) Hm Hr)
+    as [Hrej|(n & r1 & k & Ha & Hk & Hlk & Hbr1 & Hn & Hreach)].
+  - apply Hrej. cbn [length]. lia.
+  - rewrite Ha in Href. destruct (take n r1) as [[a r']|] eqn:Ht; [discriminate|].
+    apply take_none in Ht; [|lia].
+    eapply rejects_reach; [exact Hreach| |].
+    + eapply rejects_reach; [apply reaches_step; apply contb_startx; reflexivity| |].
+      * rewrite exec_at_textx by reflexivity. change (p_lcur (hdr p 96 n)) with n.
+        pose proof (zlen_nonneg r1).
+        destruct (n =? 0) eqn:En; [lia|]. cbv zeta.
+        destruct (zlen r1 =? 0) eqn:Ez.
+        -- assert (r1 = []) by (destruct r1; [reflexivity|rewrite zlen_cons in Ez; pose proof (zlen_nonneg r1); lia]).
+           subst r1. apply (rejects_stop _ _ 0); [discriminate|].
+           apply incomplete_stack. apply stack_hdr. exact Hcur.
+        -- unfold step_text. change (p_lcur (clear_startx (hdr p 96 n))) with n.
+           rewrite collect_short by (try assumption; try reflexivity; lia).
+           apply (rejects_stop _ _ 0); [discriminate|].
+           apply incomplete_stack. apply stack_hdr. exact Hcur.
+      * reflexivity.
+    + cbn [length]. lia.
+Qed.
+
+Lemma reject_bytes f ib r p s : is_byte ib = true -> all_bytes r = true -> ib / 32 = 2 ->
+  is_value (ref_body f ib r) = false -> rctx p -> s_fail s = None ->
+  reject_goal (ib :: r) p s.
+Proof.
+  intros Hib Hr HM Href [[Hbuf Hcur] Hland] Hs.
+  destruct (byte_split ib Hib) as (Hm & Hsplit & _).
+  rewrite ref_m2 in Href by exact HM.
+  unfold reject_goal. rewrite sv_m2 by exact HM.
+  destruct (ib mod 32 =? 31) eqn:E31; [apply rejects_err; discriminate|].
+  destruct (hdr_cases p s 64 (ib mod 32) r Hbuf Hcur ltac:(discriminate) Hm Hr)
+    as [Hrej|(n & r1 & k & Ha & Hk & Hlk & Hbr1 & Hn & Hreach)].
+  - apply Hrej. cbn [length]. lia.
+  - rewrite Ha in Href. destruct (take n r1) as [[a r']|] eqn:Ht; [discriminate|].
+    apply take_none in Ht; [|lia].
+    eapply rejects_reach; [exact Hreach| |].
+    + eapply rejects_reach; [apply reaches_step; apply contb_startx; reflexivity| |].
+      * rewrite exec_at_bytesx by reflexivity. change (p_lcur (hdr p 64 n)) with n.
+        pose proof (zlen_nonneg r1).
+        destruct (n =? 0) eqn:En; [lia|]. cbv zeta.
+        destruct (zlen r1 =? 0) eqn:Ez.
+        -- assert (r1 = []) by (destruct r1; [reflexivity|rewrite zlen_cons in Ez; pose proof (zlen_nonneg r1); lia]).
+           subst r1. apply (rejects_stop _ _ 0); [discriminate|].
+           apply incomplete_stack. apply stack_hdr. exact Hcur.
+        -- destruct (step_bytes_short (clear_startx (hdr p 64 n)) s r1 n) as (p' & s' & E & Est & Ecur);
+             try reflexivity; try assumption.
+           rewrite E. apply (rejects_stop _ _ 0).
+           ++ rewrite Ecur. discriminate.
+           ++ apply incomplete_stack. rewrite Est. apply stack_hdr. exact Hcur.
+      * reflexivity.
+    + cbn [length]. lia.
+Qed.
+
+(* ---------- refused containers ---------- *)
+Definition reject_spec (f : nat) : Prop :=
+  forall b, is_value (cbor_ref f b) = false -> all_bytes b = true -> fuel_ok f b ->
+  forall p s, rctx p -> s_fail s = None -> (b = [] -> incomplete p) -> reject_goal b p s.
+
+Lemma sub_ctx_rctx p X n : p_buf p = [] -> X = 128 \/ X = 160 -> rctx (sub_ctx p X n).
+Proof. intros H [-> | ->]; (split; [split; [exact H|discriminate]|discriminate]). Qed.
+Lemma ind_ctx_rctx p X : p_buf p = [] -> X = 129 \/ X = 161 -> rctx (ind_ctx p X).
+Proof. intros H [-> | ->]; (split; [split; [exact H|discriminate]|discriminate]). Qed.
+Lemma sub_ctx_incomplete p X n : incomplete (sub_ctx p X n).
+Proof. apply incomplete_stack. discriminate. Qed.
+Lemma ind_ctx_incomplete p X : incomplete (ind_ctx p X).
+Proof. apply incomplete_stack. discriminate. Qed.
+
+Lemma nonempty_zlen (r : bytes) : r <> [] -> 0 < zlen r.
+Proof. destruct r as [|x r']; [congruence|]. intros _. rewrite zlen_cons. pose proof (zlen_nonneg r'). lia. Qed.
+
+Lemma arr_loop_rej f : reject_spec f -> forall g n b acc,
+  is_value (items_def f g n b acc) = false -> 0 < n -> all_bytes b = true -> fuel_ok f b ->
+  (length b < g)%nat ->
+  forall p s, p_buf p = [] -> s_fail s = None ->
+  rejects (step_value (sub_ctx p 128 n) s b) (3 * length b).
+Proof.
+  intros Hrej. induction g as [|g IH]; intros n b acc H Hn Hb Hf Hg p s Hbuf Hs; [lia|].
+  rewrite items_def_eq in H. destruct (n <=? 0) eqn:E; [lia|].
+  destruct (cbor_ref f b) as [v1 r1| | |] eqn:Hv1.
+  - destruct (value_ok f b v1 r1 Hv1 Hb Hf (sub_ctx p 128 n) s (sub_ctx_vctx p 128 n Hbuf ltac:(discriminate)) Hs)
+      as (t1 & n1 & _ & _ & (Hc1 & Hbr1) & Hreach1).
+    destruct (n =? 1) eqn:En1.
+    { assert (n = 1) by lia. subst n. rewrite items_def_eq in H. discriminate. }
+    apply (rejects_reach _ _ _ (1 + 3 * length r1) _ Hreach1); [|lia].
+    rewrite after_value_sub_more by (auto; lia).
+    destruct r1 as [|x r1'].
+    + apply rejects_stop; [discriminate|apply sub_ctx_incomplete].
+    + apply (rejects_reach _ _ 1 (3 * length (x :: r1')) _ (reaches_step _ _ _ (contb_nonempty _ _ _))); [|lia].
+      rewrite exec_at_arr by reflexivity. rewrite step_array_more by lia.
+      apply IH with (acc := v1 :: acc); try assumption; try lia;
+        try (rewrite sadd_fail; exact Hs); try (destruct Hf; split; [lia|assumption]).
+  - apply Hrej; try assumption.
+    + rewrite Hv1. reflexivity.
+    + apply sub_ctx_rctx; auto.
+    + intros _. apply sub_ctx_incomplete.
+  - apply Hrej; try assumption.
+    + rewrite Hv1. reflexivity.
+    + apply sub_ctx_rctx; auto.
+    + intros _. apply sub_ctx_incomplete.
+  - apply Hrej; try assumption.
+    + rewrite Hv1. reflexivity.
+    + apply sub_ctx_rctx; auto.
+    + intros _. apply sub_ctx_incomplete.
+Qed.
+
+Lemma arr_ind_loop_rej f : reject_spec f -> forall g b acc,
+  is_value (items_ind f g b acc) = false -> b <> [] -> all_bytes b = true -> fuel_ok f b ->
+  (length b < g)%nat ->
+  forall p s, p_buf p = [] -> s_fail s = None ->
+  rejects (indef_body true (ind_ctx p 129) s b) (3 * length b).
+Proof.
+  intros Hrej. induction g as [|g IH]; intros b acc H Hne Hb Hf Hg p s Hbuf Hs; [lia|].
+  destruct b as [|x r]; [congruence|].
+  destruct (Z.eq_dec x 255) as [->|Hx]; [rewrite items_ind_S in H; discriminate|].
+  rewrite items_ind_other in H by exact Hx.
+  unfold indef_body. destruct (x =? 255) eqn:Ex; [lia|].
+  destruct (cbor_ref f (x :: r)) as [v1 r1| | |] eqn:Hv1.
+  - destruct (value_ok f _ v1 r1 Hv1 Hb Hf (ind_ctx p 129) s (ind_ctx_vctx p 129 Hbuf ltac:(discriminate)) Hs)
+      as (t1 & n1 & _ & _ & (Hc1 & Hbr1) & Hreach1).
+    apply (rejects_reach _ _ _ (1 + 3 * length r1) _ Hreach1); [|lia].
+    rewrite after_value_ind by auto.
+    destruct r1 as [|y r1'].
+    + apply rejects_stop; [discriminate|apply ind_ctx_incomplete].
+    + apply (rejects_reach _ _ 1 (3 * length (y :: r1')) _ (reaches_step _ _ _ (contb_nonempty _ _ _))); [|lia].
+      rewrite exec_at_arri by reflexivity.
+      apply IH with (acc := v1 :: acc); try assumption; try lia; try discriminate;
+        try (rewrite sadd_fail; exact Hs); try (destruct Hf; split; [lia|assumption]).
+  - apply Hrej; try assumption; [rewrite Hv1; reflexivity|apply ind_ctx_rctx; auto|discriminate].
+  - apply Hrej; try assumption; [rewrite Hv1; reflexivity|apply ind_ctx_rctx; auto|discriminate].
+  - apply Hrej; try assumption; [rewrite Hv1; reflexivity|apply ind_ctx_rctx; auto|discriminate].
+Qed.
+
+Lemma items_def_0 f g b acc : items_def f g 0 b acc = RValue (CArr (rev acc)) b.
+Proof. rewrite items_def_eq. reflexivity. Qed.
+Lemma pairs_def_0 f g b acc : pairs_def f g 0 b acc = RValue (CObj (rev acc)) b.
+Proof. rewrite pairs_def_eq. reflexivity. Qed.
+
+Lemma stack_push2 p A B : c_major A <> stFail -> p_stack (st_push (st_push p A) B) <> [].
+Proof. intro H. apply stack_push. exact H. Qed.
+
+Lemma reject_arr f ib r p s : reject_spec f ->
+  is_byte ib = true -> all_bytes r = true -> ib / 32 = 4 -> fuel_ok (S f) (ib :: r) ->
+  is_value (ref_body f ib r) = false -> rctx p -> s_fail s = None ->
+  reject_goal (ib :: r) p s.
+Proof.
+  intros Hrej Hib Hr HM Hfuel Href [[Hbuf Hcur] Hland] Hs.
+  destruct (byte_split ib Hib) as (Hm & Hsplit & _).
+  rewrite ref_m4 in Href by exact HM.
+  unfold reject_goal. rewrite sv_m4 by exact HM.
+  assert (Hf : fuel_ok f r) by (destruct Hfuel as [H1 H2]; cbn [length] in H1; split; lia).
+  destruct (Z.eq_dec (ib mod 32) 31) as [E31|E31].
+  - (* indefinite *)
+    rewrite E31 in *. change (read_arg 31 r) with (ArgIndef r) in Href.
+    unfold init_sub. change (31 =? 31) with true. cbv iota.
+    change (128 + stIndef) with 129. change (128 + stStartX + stIndef) with 133. change stStart with 1.
+    destruct r as [|y r'].
+    + apply rejects_stop; [discriminate|]. apply incomplete_stack. apply stack_push2. discriminate.
+    + eapply rejects_reach; [apply reaches_step; apply contb_nonempty| |].
+      * rewrite exec_at_arrix by reflexivity.
+        rewrite vis_ok by exact Hs. change (isnil nilE) with true. cbn [negb]. cbv iota.
+        rewrite pop_push2_ind by (auto; discriminate).
+        apply (arr_ind_loop_rej f Hrej f (y :: r') []); try assumption; try discriminate;
+          try (destruct Hf; assumption); try (rewrite sadd_fail; exact Hs).
+      * cbn [length]. lia.
+  - destruct (ib mod 32 >? 27) eqn:E27.
+    + unfold init_sub. destruct (ib mod 32 =? 31) eqn:E; [lia|].
+      destruct (ib mod 32 <? 24) eqn:E'; [lia|]. rewrite E27. apply rejects_err. discriminate.
+    + rewrite init_sub_def by lia. change stStart with 1.
+      destruct (hdr_cases (st_push p (mkst 128 1)) s 128 (ib mod 32) r Hbuf ltac:(discriminate)
+                  ltac:(discriminate) Hm Hr)
+        as [Hr'|(n & r1 & k & Ha & Hk & Hlk & Hbr1 & Hn & Hreach)].
+      * apply Hr'. cbn [length]. lia.
+      * rewrite Ha in Href.
+        destruct (n =? 0) eqn:En.
+        { assert (n = 0) by lia. subst n. rewrite items_def_0 in Href. discriminate. }
+        eapply rejects_reach; [exact Hreach| |].
+        -- eapply rejects_reach; [apply reaches_step; apply contb_startx; reflexivity| |].
+           ++ rewrite exec_at_arrx by reflexivity.
+              change (p_lcur (hdr (st_push p (mkst 128 1)) 128 n)) with n.
+              rewrite vis_ok by exact Hs. change (isnil nilE) with true. cbv iota.
+              rewrite pop_hdr_sub by (auto; discriminate).
+              rewrite step_array_more by lia.
+              apply (arr_loop_rej f Hrej f n r1 []); try assumption; try lia;
+                try (destruct Hf; split; [lia|assumption]); try (destruct Hf; lia);
+                try (rewrite sadd_fail; exact Hs).
+           ++ reflexivity.
+        -- cbn [length]. lia.
+Qed.
+
+(* ---------- refused map keys and pairs ---------- *)
+Lemma key_rej f kb r C s B : is_byte kb = true -> all_bytes r = true -> kb / 32 = 3 ->
+  is_value (ref_body f kb r) = false -> vctx C -> s_fail s = None -> (3 <= B)%nat ->
+  rejects (init_map_key C s (kb :: r)) B.
+Proof.
+  intros Hib Hr HM Href [Hbuf Hcur] Hs HB.
+  destruct (byte_split kb Hib) as (Hm & Hsplit & _).
+  rewrite ref_m3 in Href by exact HM.
+  unfold init_map_key. rewrite HM. change (negb (3 * 32 =? mText)) with false. cbv iota.
+  destruct (kb mod 32 =? 31) eqn:E31; [apply rejects_err; discriminate|].
+  destruct (hdr_cases C s 168 (kb mod 32) r Hbuf Hcur ltac:(discriminate) Hm Hr)
+    as [Hrej|(n & r1 & k & Ha & Hk & Hlk & Hbr1 & Hn & Hreach)].
+  - apply Hrej. lia.
+  - rewrite Ha in Href. destruct (take n r1) as [[a r']|] eqn:Ht; [discriminate|].
+    apply take_none in Ht; [|lia].
+    apply (rejects_reach _ _ _ 1 _ Hreach); [|lia].
+    apply (rejects_reach _ _ 1 0 _ (reaches_step (hdr C 168 n) s r1 (contb_startx r1 (hdr C 168 n) eq_refl))); [|lia].
+    rewrite exec_at_keyx by reflexivity. change (p_lcur (hdr C 168 n)) with n.
+    pose proof (zlen_nonneg r1).
+    destruct (n =? 0) eqn:En; [lia|].
+    unfold step_key. change (p_lcur (clear_startx (hdr C 168 n))) with n.
+    rewrite collect_short by (try assumption; try reflexivity; lia).
+    apply rejects_stop; [discriminate|].
+    apply incomplete_stack. apply stack_hdr. exact Hcur.
+Qed.
+
+Lemma pair_cases f kb r C s : reject_spec f ->
+  all_bytes (kb :: r) = true -> fuel_ok f (kb :: r) ->
+  rctx C -> p_stack C <> [] -> s_fail s = None ->
+  rejects (init_map_key C s (kb :: r)) (3 * length (kb :: r)) \/
+  (kb / 32 = 3 /\ exists a r' v r'' ev j,
+      cbor_ref f (kb :: r) = RValue (CStr a) r' /\ cbor_ref f r' = RValue v r'' /\
+      (j + 2 + 3 * length r'' <= 3 * length (kb :: r))%nat /\ all_bytes r'' = true /\
+      reaches (init_map_key C s (kb :: r)) (after_value C (sadd s ev) r'' nilE) j).
+Proof.
+  intros Hrej Hb Hf [HC Hland] Hst Hs.
+  pose proof Hb as Hb'. rewrite all_bytes_cons in Hb'. apply andb_true_iff in Hb' as [Hkb Hr].
+  destruct (Z.eq_dec (kb / 32) 3) as [HM|HM].
+  2:{ left. unfold init_map_key.
+      assert (E : negb (kb / 32 * 32 =? mText) = true) by (unfold mText; lia).
+      rewrite E. apply rejects_err. discriminate. }
+  destruct f as [|f']; [destruct Hf; lia|].
+  destruct (cbor_ref (S f') (kb :: r)) as [vk r'| | |] eqn:Hk.
+  - destruct (ref_text_inv _ _ _ _ _ Hkb HM Hk) as (f0 & n & r1 & a & Ef & Ha & Ht & ->).
+    assert (Hsz : zlen r <= MaxInt64).
+    { pose proof (fuel_ok_size _ _ Hf) as Hz. rewrite zlen_cons in Hz. lia. }
+    destruct (key_ok kb r n r1 a r' C s Hkb Hr HM Hsz Ha Ht HC Hs)
+      as (byref & j & Hba & (Hc & Hbr') & Hreach).
+    assert (Hf' : fuel_ok (S f') r') by (destruct Hf as [H1 H2]; cbn [length] in *; split; lia).
+    destruct (cbor_ref (S f') r') as [v r''| | |] eqn:Hv.
+    + right. split; [exact HM|].
+      destruct (value_ok _ r' v r'' Hv Hbr' Hf' C (sadd s [key_event a byref]) HC
+                  ltac:(rewrite sadd_fail; exact Hs))
+        as (t & nv & _ & _ & (Hcv' & Hbr'') & Hreachv).
+      exists a, r', v, r'', ([key_event a byref] ++ flatten t), (j + (1 + nv))%nat.
+      split; [first [reflexivity|exact Hk]|]. split; [first [reflexivity|exact Hv]|]. split; [lia|]. split; [exact Hbr''|].
+      eapply reaches_trans; [exact Hreach|].
+      eapply reaches_trans.
+      { apply reaches_step. apply contb_pos.
+        destruct r' as [|y r0]; [|rewrite zlen_cons; pose proof (zlen_nonneg r0); lia].
+        rewrite cbor_ref_nil in Hv. discriminate. }
+      rewrite elem_step by (destruct HC; assumption).
+      rewrite sadd_app in Hreachv. exact Hreachv.
+    + left. apply (rejects_reach _ _ _ (1 + 3 * length r') _ Hreach); [|lia].
+      assert (Hel : incomplete (elem_st C)).
+      { apply incomplete_stack. unfold elem_st. cbn [set_cur p_stack]. apply stack_push.
+        destruct HC; assumption. }
+      destruct r' as [|y r0].
+      * apply rejects_stop; [discriminate|exact Hel].
+      * apply (rejects_reach _ _ 1 (3 * length (y :: r0)) _ (reaches_step _ _ _ (contb_nonempty _ _ _))); [|lia].
+        rewrite elem_step by (destruct HC; assumption).
+        apply Hrej; try assumption; try discriminate; try (rewrite Hv; reflexivity);
+          try (split; assumption); try (rewrite sadd_fail; exact Hs).
+    + left. apply (rejects_reach _ _ _ (1 + 3 * length r') _ Hreach); [|lia].
+      assert (Hel : incomplete (elem_st C)).
+      { apply incomplete_stack. unfold elem_st. cbn [set_cur p_stack]. apply stack_push.
+        destruct HC; assumption. }
+      destruct r' as [|y r0].
+      * apply rejects_stop; [discriminate|exact Hel].
+      * apply (rejects_reach _ _ 1 (3 * length (y :: r0)) _ (reaches_step _ _ _ (contb_nonempty _ _ _))); [|lia].
+        rewrite elem_step by (destruct HC; assumption).
+        apply Hrej; try assumption; try discriminate; try (rewrite Hv; reflexivity);
+          try (split; assumption); try (rewrite sadd_fail; exact Hs).
+    + left. apply (rejects_reach _ _ _ (1 + 3 * length r') _ Hreach); [|lia].
+      assert (Hel : incomplete (elem_st C)).
+      { apply incomplete_stack. unfold elem_st. cbn [set_cur p_stack]. apply stack_push.
+        destruct HC; assumption. }
+      destruct r' as [|y r0].
+      * apply rejects_stop; [discriminate|exact Hel].
+      * apply (rejects_reach _ _ 1 (3 * length (y :: r0)) _ (reaches_step _ _ _ (contb_nonempty _ _ _))); [|lia].
+        rewrite elem_step by (destruct HC; assumption).
+        apply Hrej; try assumption; try discriminate; try (rewrite Hv; reflexivity);
+          try (split; assumption); try (rewrite sadd_fail; exact Hs).
+  - left. rewrite cbor_ref_S in Hk. apply (key_rej f'); try assumption.
+    + rewrite Hk. reflexivity.
+    + cbn [length]. lia.
+  - left. rewrite cbor_ref_S in Hk. apply (key_rej f'); try assumption.
+    + rewrite Hk. reflexivity.
+    + cbn [length]. lia.
+  - left. rewrite cbor_ref_S in Hk. apply (key_rej f'); try assumption.
+    + rewrite Hk. reflexivity.
+    + cbn [length]. lia.
+Qed.
+
+Lemma step_map_empty p X k s : 0 < k ->
+  step_map (sub_ctx p X k) s [] = SR (sub_ctx p X k) s [] false nilE.
+Proof.
+  intro H. unfold step_map, handle_len. cbn [sub_ctx p_lcur].
+  destruct (k >? 0) eqn:E; [reflexivity|lia].
+Qed.
+
+Lemma map_loop_rej f : reject_spec f -> forall g n b acc,
+  is_value (pairs_def f g n b acc) = false -> 0 < n -> all_bytes b = true -> fuel_ok f b ->
+  (length b < g)%nat ->
+  forall p s, p_buf p = [] -> s_fail s = None ->
+  rejects (step_map (sub_ctx p 160 n) s b) (3 * length b).
+Proof.
+  intros Hrej. induction g as [|g IH]; intros n b acc H Hn Hb Hf Hg p s Hbuf Hs; [lia|].
+  destruct b as [|kb r].
+  { rewrite step_map_empty by exact Hn. apply rejects_stop; [discriminate|apply sub_ctx_incomplete]. }
+  rewrite step_map_more by (try exact Hn; rewrite zlen_cons; pose proof (zlen_nonneg r); lia).
+  destruct (pair_cases f kb r (sub_ctx p 160 n) s Hrej Hb Hf (sub_ctx_rctx p 160 n Hbuf ltac:(auto))
+              ltac:(discriminate) Hs)
+    as [Hr|(HM & a & r' & v & r'' & ev & j & Hk & Hv & Hc & Hbr'' & Hreach)]; [exact Hr|].
+  rewrite pairs_def_eq in H. destruct (n <=? 0) eqn:E; [lia|].
+  rewrite HM in H. change (negb (3 =? 3)) with false in H. cbv iota in H.
+  rewrite Hk, Hv in H.
+  destruct (n =? 1) eqn:En1.
+  { assert (n = 1) by lia. subst n. rewrite pairs_def_0 in H. discriminate. }
+  apply (rejects_reach _ _ _ (1 + 3 * length r'') _ Hreach); [|lia].
+  rewrite after_value_sub_more by (auto; lia).
+  destruct r'' as [|x r0].
+  - apply rejects_stop; [discriminate|apply sub_ctx_incomplete].
+  - apply (rejects_reach _ _ 1 (3 * length (x :: r0)) _ (reaches_step _ _ _ (contb_nonempty _ _ _))); [|lia].
+    rewrite exec_at_map by reflexivity.
+    apply IH with (acc := (a, v) :: acc); try assumption; try lia;
+      try (rewrite sadd_fail; exact Hs); try (destruct Hf; split; [lia|assumption]).
+Qed.
+
+Lemma map_ind_loop_rej f : reject_spec f -> forall g b acc,
+  is_value (pairs_ind f g b acc) = false -> b <> [] -> all_bytes b = true -> fuel_ok f b ->
+  (length b < g)%nat ->
+  forall p s, p_buf p = [] -> s_fail s = None ->
+  rejects (indef_body false (ind_ctx p 161) s b) (3 * length b).
+Proof.
+  intros Hrej. induction g as [|g IH]; intros b acc H Hne Hb Hf Hg p s Hbuf Hs; [lia|].
+  destruct b as [|kb r]; [congruence|].
+  destruct (Z.eq_dec kb 255) as [->|Hx]; [rewrite pairs_ind_S in H; discriminate|].
+  rewrite pairs_ind_other in H by exact Hx.
+  unfold indef_body. destruct (kb =? 255) eqn:Ex; [lia|].
+  destruct (pair_cases f kb r (ind_ctx p 161) s Hrej Hb Hf (ind_ctx_rctx p 161 Hbuf ltac:(auto))
+              ltac:(discriminate) Hs)
+    as [Hr|(HM & a & r' & v & r'' & ev & j & Hk & Hv & Hc & Hbr'' & Hreach)]; [exact Hr|].
+  rewrite HM in H. change (negb (3 =? 3)) with false in H. cbv iota in H.
+  rewrite Hk, Hv in H.
+  apply (rejects_reach _ _ _ (1 + 3 * length r'') _ Hreach); [|lia].
+  rewrite after_value_ind by auto.
+  destruct r'' as [|x r0].
+  - apply rejects_stop; [discriminate|apply ind_ctx_incomplete].
+  - apply (rejects_reach _ _ 1 (3 * length (x :: r0)) _ (reaches_step _ _ _ (contb_nonempty _ _ _))); [|lia].
+    rewrite exec_at_mapi by reflexivity.
+    apply IH with (acc := (a, v) :: acc); try assumption; try lia; try discriminate;
+      try (rewrite sadd_fail; exact Hs); try (destruct Hf; split; [lia|assumption]).
+Qed.
+
+Lemma reject_map f ib r p s : reject_spec f ->
+  is_byte ib = true -> all_bytes r = true -> ib / 32 = 5 -> fuel_ok (S f) (ib :: r) ->
+  is_value (ref_body f ib r) = false -> rctx p -> s_fail s = None ->
+  reject_goal (ib :: r) p s.
+Proof.
+  intros Hrej Hib Hr HM Hfuel Href [[Hbuf Hcur] Hland] Hs.
+  destruct (byte_split ib Hib) as (Hm & Hsplit & _).
+  rewrite ref_m5 in Href by exact HM.
+  unfold reject_goal. rewrite sv_m5 by exact HM.
+  assert (Hf : fuel_ok f r) by (destruct Hfuel as [H1 H2]; cbn [length] in H1; split; lia).
+  destruct (Z.eq_dec (ib mod 32) 31) as [E31|E31].
+  - rewrite E31 in *. change (read_arg 31 r) with (ArgIndef r) in Href.
+    unfold init_sub. change (31 =? 31) with true. cbv iota.
+    change (160 + stIndef) with 161. change (160 + stStartX + stIndef) with 165. change stStart with 1.
+    destruct r as [|y r'].
+    + apply rejects_stop; [discriminate|]. apply incomplete_stack. apply stack_push2. discriminate.
+    + apply (rejects_reach _ _ 1 (3 * length (y :: r')) _ (reaches_step _ _ _ (contb_nonempty _ _ _)));
+        [|cbn [length]; lia].
+      rewrite exec_at_mapix by reflexivity.
+      rewrite vis_ok by exact Hs. change (isnil nilE) with true. cbn [negb]. cbv iota.
+      rewrite pop_push2_ind by (auto; discriminate).
+      apply (map_ind_loop_rej f Hrej f (y :: r') []); try assumption; try discriminate;
+        try (destruct Hf; assumption); try (rewrite sadd_fail; exact Hs).
+  - destruct (ib mod 32 >? 27) eqn:E27.
+    + unfold init_sub. destruct (ib mod 32 =? 31) eqn:E; [lia|].
+      destruct (ib mod 32 <? 24) eqn:E'; [lia|]. rewrite E27. apply rejects_err. discriminate.
+    + rewrite init_sub_def by lia. change stStart with 1.
+      destruct (hdr_cases (st_push p (mkst 160 1)) s 160 (ib mod 32) r Hbuf ltac:(discriminate)
+                  ltac:(discriminate) Hm Hr)
+        as [Hr'|(n & r1 & k & Ha & Hk & Hlk & Hbr1 & Hn & Hreach)].
+      * apply Hr'. cbn [length]. lia.
+      * rewrite Ha in Href.
+        destruct (n =? 0) eqn:En.
+        { assert (n = 0) by lia. subst n. rewrite pairs_def_0 in Href. discriminate. }
+        apply (rejects_reach _ _ _ (1 + 3 * length r1) _ Hreach); [|cbn [length]; lia].
+        apply (rejects_reach _ _ 1 (3 * length r1) _ (reaches_step (hdr (st_push p (mkst 160 1)) 160 n) s r1 (contb_startx r1 (hdr (st_push p (mkst 160 1)) 160 n) eq_refl))); [|lia].
+        rewrite exec_at_mapx by reflexivity.
+        change (p_lcur (hdr (st_push p (mkst 160 1)) 160 n)) with n.
+        rewrite vis_ok by exact Hs. change (isnil nilE) with true. cbv iota.
+        rewrite pop_hdr_sub by (auto; discriminate).
+        apply (map_loop_rej f Hrej f n r1 []); try assumption; try lia;
+          try (destruct Hf; split; [lia|assumption]); try (destruct Hf; lia);
+          try (rewrite sadd_fail; exact Hs).
+Qed.
+
+(* ---------- everything that is not a value of the subset is refused, in any context ---------- *)
+Theorem reject_ok : forall f, reject_spec f.
+Proof.
+  induction f as [|f IH]; intros b H Hb Hf p s Hp Hs Hemp; [destruct Hf; lia|].
+  destruct b as [|ib r].
+  { unfold reject_goal. cbn [step_value]. destruct Hp as [_ Hl].
+    apply rejects_stop; [exact Hl|]. apply Hemp. reflexivity. }
+  rewrite cbor_ref_S in H.
+  pose proof Hb as Hb'. rewrite all_bytes_cons in Hb'. apply andb_true_iff in Hb' as [Hib Hr].
+  destruct (byte_split ib Hib) as (Hm & _ & [HM|[HM|[HM|[HM|[HM|[HM|[HM|HM]]]]]]]).
+  - eapply reject_uint; eassumption.
+  - eapply reject_neg; eassumption.
+  - eapply reject_bytes; eassumption.
+  - eapply reject_text; eassumption.
+  - eapply reject_arr; eassumption.
+  - eapply reject_map; eassumption.
+  - apply reject_tag. exact HM.
+  - rewrite ref_m7 in H by exact HM. eapply reject_simple; eassumption.
+Qed.
+Print Assumptions reject_ok.
+
+(* whole-buffer Parse on a refused input *)
+Lemma parse_rejects b : b <> [] ->
+  rejects (step_value cparser0 (sink0 None) b) (3 * length b) ->
+  exists evs e, run_parse None b = Ok (evs, e) /\ e <> nilE.
+Proof.
+  intros Hne (n & Hn & H).
+  unfold run_parse, p_parse.
+  replace (2 * length b + 2)%nat with (S (S (2 * length b))) by lia.
+  rewrite feed_S. destruct (zlen b >? 0) eqn:Ez.
+  2:{ destruct b; [congruence|rewrite zlen_cons in Ez; pose proof (zlen_nonneg b); lia]. }
+  unfold feed_fuel.
+  replace (8 * length b + 16)%nat with (S (n + (8 * length b + 15 - n)))%nat by lia.
+  rewrite feed_until_S, exec_at_value by reflexivity.
+  destruct (H (8 * length b + 15 - n)%nat) as (Y & HY & Hbad). rewrite HY.
+  destruct Y as [p1 s1 rest d e|w]; [|destruct Hbad].
+  cbn [bad_end] in Hbad.
+  destruct (Z.eq_dec e nilE) as [->|He].
+  - destruct Hbad as [Hbad|[-> Hinc]]; [congruence|].
+    change (isnil nilE) with true. cbv iota. rewrite feed_S.
+    change (zlen (@nil Z) >? 0) with false. cbv iota.
+    change (isnil nilE) with true. cbv iota.
+    eexists. eexists. split; [reflexivity|]. exact Hinc.
+  - unfold isnil. rewrite (neq_eqb _ _ He).
+    eexists. eexists. split; [reflexivity|]. unfold isnil. rewrite (neq_eqb _ _ He). exact He.
+Qed.
+
+Lemma decode_fuel_ok b : (zlen b <=? MaxInt64) = true -> fuel_ok (S (length b)) b.
+Proof. unfold MaxInt64, fuel_ok, zlen. intro H. split; lia. Qed.
+
+Lemma rctx_top : rctx cparser0.
+Proof. split; [split; [reflexivity|discriminate]|discriminate]. Qed.
+
+Theorem C05_refuse : forall b, all_bytes b = true -> (zlen b <=? MaxInt64) = true ->
+  cbor_decode b = RUnsupported ->
+  exists evs e, run_parse None b = Ok (evs, e) /\ e <> nilE.
+Proof.
+  intros b Hb Hsz H. unfold cbor_decode in H.
+  assert (Hne : b <> []) by (intros ->; rewrite cbor_ref_nil in H; discriminate).
+  apply parse_rejects; [exact Hne|].
+  apply (reject_ok (S (length b)) b); try assumption.
+  - rewrite H. reflexivity.
+  - apply decode_fuel_ok. exact Hsz.
+  - apply rctx_top.
+  - reflexivity.
+  - intro. congruence.
+Qed.
+Print Assumptions C05_refuse.
+
+(* input ending inside a value is an error (finalize).  The empty input is
+   the one exception: the reference calls it truncated, Parse accepts it as
+   "no value" - see C03_empty_input. *)
+Theorem C03_cbor_trunc : forall b, all_bytes b = true -> (zlen b <=? MaxInt64) = true -> b <> [] ->
+  cbor_decode b = RTruncated ->
+  exists evs e, run_parse None b = Ok (evs, e) /\ e <> nilE.
+Proof.
+  intros b Hb Hsz Hne H. unfold cbor_decode in H.
+  apply parse_rejects; [exact Hne|].
+  apply (reject_ok (S (length b)) b); try assumption.
+  - rewrite H. reflexivity.
+  - apply decode_fuel_ok. exact Hsz.
+  - apply rctx_top.
+  - reflexivity.
+  - intro. congruence.
+Qed.
+Print Assumptions C03_cbor_trunc.
+
+Theorem C03_empty_input :
+  cbor_decode [] = RTruncated /\ run_parse None [] = Ok ([], nilE).
+Proof. split; reflexivity. Qed.
+Print Assumptions C03_empty_input.
+
+(* not asked for, but free: malformed input is refused as well *)
+Theorem C05_malformed : forall b, all_bytes b = true -> (zlen b <=? MaxInt64) = true ->
+  cbor_decode b = RMalformed ->
+  exists evs e, run_parse None b = Ok (evs, e) /\ e <> nilE.
+Proof.
+  intros b Hb Hsz H. unfold cbor_decode in H.
+  assert (Hne : b <> []) by (intros ->; rewrite cbor_ref_nil in H; discriminate).
+  apply parse_rejects; [exact Hne|].
+  apply (reject_ok (S (length b)) b); try assumption.
+  - rewrite H. reflexivity.
+  - apply decode_fuel_ok. exact Hsz.
+  - apply rctx_top.
+  - reflexivity.
+  - intro. congruence.
+Qed.
+Print Assumptions C05_malformed.
+
+(* C09 for the parser on accepted inputs, in terms of the contract monitor *)
+Corollary C09_cbor_parser : forall b v, all_bytes b = true -> (zlen b <=? MaxInt64) = true ->
+  cbor_decode b = RValue v [] ->
+  exists evs, run_parse None b = Ok (evs, nilE) /\ contract_ok evs = true.
+Proof.
+  intros b v Hb Hsz H. destruct (C05_accept b v Hb Hsz H) as (evs & t & Hrun & Hst & Hwf & _).
+  exists evs. split; [exact Hrun|]. unfold contract_ok. rewrite Hst. exact Hwf.
+Qed.
+Print Assumptions C09_cbor_parser.
